@@ -134,6 +134,15 @@ func spinWatch() {
 func Exec(t *testing.T, scn *Scenario) (r *Run, jd *Judged) {
 	// crypto/rand (GCM nonces, temporary file names) is part of the execution: seed it
 	cryptotest.SetGlobalRandom(t, scn.Seed^scn.SchedSeed)
+	// the process's time zone is part of the environment: what the library formats or parses without saying
+	// "UTC" depends on it
+	saved := time.Local
+	if scn.TZMin != 0 {
+		time.Local = time.FixedZone(fmt.Sprintf("SIM%+d", scn.TZMin), scn.TZMin*60)
+	} else {
+		time.Local = time.UTC
+	}
+	defer func() { time.Local = saved }()
 	func() {
 		execActive.Store(true)
 		defer execActive.Store(false)
